@@ -192,6 +192,17 @@ def run(tier):
         s.close()
         runs.append((a, rec2.n, v_))
         chk.case(("api-int", v_))
+    # the messages real sessions emit, after histories that leave something behind in the send path: a refused (oversize) request,
+    # a send() that failed after the message was built (peer gone), requests of other sessions on the same thread in between
+    from checks import c03
+    for k, pair in enumerate(c03.PAIRS[:6] if not thorough else c03.PAIRS * 2):
+        a, b = c03.run_sendfail(rec2, pair, k)
+        runs.append((a, b, ("history", "sendfail", pair, k)))
+        chk.case(("history", "sendfail", pair, k))
+        a = rec2.n
+        c03.run_history(rec2, pair, [{"s": "A", "op": "get_many", "fate": "oversize"}, {"s": "B", "op": "get", "fate": "answered"}, {"s": "A", "op": "getbulk", "fate": "answered"}], k)
+        runs.append((a, rec2.n, ("history", "oversize", pair, k)))
+        chk.case(("history", "oversize", pair, k))
     rec2.close()
     v2 = trace.validate_parallel("TraceSession.tla", "TraceSession.cfg", rec2.events, [(a, b) for a, b, _ in runs], k=4, name="c15api")
     for i, r in enumerate(v2["results"]):
@@ -202,6 +213,12 @@ def run(tier):
         while runs[ri][1] <= idx:
             ri += 1
         val = runs[ri][2]
+        if isinstance(val, tuple):
+            ev = rec2.events[idx]
+            chk.violation(dict(kind="session-message", history=val[1], ev=ev["ev"], got=ev.get("exc") or "sent"),
+                          "sessions %s after a %s history: %s %s is not the minimal encoding of the request (wire %s)" % (list(val[2]), val[1], ev["ev"], ev.get("op"), bytes(ev.get("wire", []))[:48].hex()),
+                          dict(kind="session-message", history=val[1], pair=list(val[2]), k=val[3]))
+            continue
         n = (abs(val).bit_length() + 8) // 8
         chk.violation(dict(kind="int", neg=val < 0, octets=n), "max_repetitions=%d on the wire: %s" % (val, bytes(rec2.events[idx]["wire"]).hex()),
                       dict(kind="api-int", v=str(val), event=rec2.events[idx]))
@@ -222,5 +239,18 @@ def replay(path):
             print("VIOLATION property=C15 replay=%s" % path)
             return 1
         return 0
+    if r.get("kind") == "session-message":
+        from checks import c03
+        rec = trace.Recorder("c15-replay")
+        if r["history"] == "sendfail":
+            c03.run_sendfail(rec, tuple(r["pair"]), r["k"])
+        else:
+            c03.run_history(rec, tuple(r["pair"]), [{"s": "A", "op": "get_many", "fate": "oversize"}, {"s": "B", "op": "get", "fate": "answered"}, {"s": "A", "op": "getbulk", "fate": "answered"}], r["k"])
+        v = trace.validate("TraceSession.tla", "TraceSession.cfg", rec.close())
+        if v["accepted"] and not v["fails"]:
+            print("replay: accepted")
+            return 0
+        print("VIOLATION property=C15 replay=%s" % path)
+        return 1
     print(json.dumps(r)[:2000])
     return 0
